@@ -78,7 +78,7 @@ def witnesses(stats):
                       ("float-many-digits", [x == z3.StringVal("123456789012345678.125")]),
                       ("int-max", [x == z3.StringVal("9223372036854775807")]),
                       # empty for the pinned token definitions: integer spellings with letters (other bases), short and at full width
-                      ("int-with-a-letter", [z3.InRe(x, L["Int"]), z3.InRe(x, z3.Concat(z3.Star(z3.AllChar(z3.StringSort())) if hasattr(z3, "AllChar") else z3.Star(z3.Range(" ", "~")), z3.Union(z3.Range("a", "z"), z3.Range("A", "Z")), z3.Star(z3.Range(" ", "~")))), z3.Length(x) <= 6]),
+                      ("int-with-a-letter", [z3.InRe(x, L["Int"]), z3.InRe(x, z3.Concat(z3.Star(z3.Range(" ", "~")), z3.Union(z3.Range("a", "z"), z3.Range("A", "Z")), z3.Star(z3.Range(" ", "~")))), z3.Length(x) <= 6]),
                       ("int-with-a-letter-full-width", [z3.InRe(x, L["Int"]), z3.Contains(x, z3.StringVal("FFFFFFFFFFFFFFFF")), z3.Length(x) <= 18]),
                       ("int-with-a-letter-top-bit", [z3.InRe(x, L["Int"]), z3.Contains(x, z3.StringVal("8000000000000000")), z3.Length(x) <= 18]),
                       ("int-leading-zeros", [z3.InRe(x, L["Int"]), z3.PrefixOf(z3.StringVal("00"), x), z3.Length(x) == 3])]:
